@@ -40,6 +40,7 @@ structure PendingOp where
   appliedAt : Nat := 0
   inStopAtCall : Bool := false   -- issued while a StopWithContext{DeleteKey} of the instance was in progress
   ledAtStop : Bool := false      -- … and that call had found the instance leading
+  deleteNth : Nat := 0           -- for a Delete: which Delete of the instance's stop calls in progress this is (1 = the first)
   site : String := ""             -- the library function that issued the operation
   deriving Repr, DecidableEq, Inhabited
 
@@ -105,6 +106,7 @@ structure InstW where
   lastCreateAt : Option Nat := none -- its latest Create call
   jitterSuspect : Option (Nat × String) := none  -- a Create that looks like a round without jitter; judged when the clock moves on
   lastCutAt : Option Nat := none     -- the latest change of this instance's reachability (partition, healing, crash)
+  stopDeletes : Nat := 0             -- Deletes issued since the latest stop call of this instance began
   spawns : List Nat := []            -- moments (of the last few seconds) at which an acquisition round or a single takeover attempt of this instance began
   spacingSuspect : Option (Nat × String) := none  -- two Creates of what can only be one round, closer than the smallest backoff; judged when the clock moves on
   runCancelledAt : Option Nat := none  -- the application cancelled the context of the current run then (no Start since)
